@@ -19,7 +19,8 @@ import (
 // data read-only), S1 [1]/2 (Identification: list writable, session list not added) and S2 [2]/1
 // (DeviceClassification: manufacturer data writable, user data never added), three peers with identical numbering and two client features
 // per server type ([1]/x and [1,1]/x), subscribers from every peer on every server feature. A history of
-// 15-30 operations {bind, unbind, disconnect, reconnect + re-announce, remote entity removed / added, write}
+// 15-30 operations {bind, unbind, disconnect, reconnect + re-announce, re-announcement without reconnect, remote entity
+// removed / added, write (also with a 'function' element that disagrees with / repeats the data element's function)}
 // drives a shadow model = reference binding registry (holder per server feature) /\ write flag of the function.
 // Around every write: DataCopy of every function of every server feature before and after, the taps of all
 // peers, the core event sink.
@@ -29,13 +30,19 @@ func init() {
 		ID:    "C03",
 		Floor: 450,
 		Rule: "case = one World (3 local server features mixing writable, read-only and not-added functions; 3 identically numbered peers x 2 client features per type; subscribers on every server feature) and a seeded history of 15-30 operations " +
-			"{bind, bind by another peer, unbind, disconnect, reconnect + re-announce, remote entity [1] or [1,1] removed / added by discovery notify, write by the holder / a non-holder with the same numbers / the holder's other client feature / to a read-only function / to a function not added / by a feature that is no longer announced / over the stale connection of a disconnected holder}; " +
-			"teardown operations are followed by writes of the former holder and of a remaining holder. Writes are filter-less full writes of flag-less functions or partial writes to an existing id. " +
+			"{bind, bind by another peer, unbind, disconnect, reconnect + re-announce, re-announcement WITHOUT reconnect (the detailed discovery reply once more, or a partial notify lastStateChange=added for a known entity; same addresses, roles and types, in every second one new description texts; by a binding holder or a bystander; the shadow registry is unchanged by it), " +
+			"remote entity [1] or [1,1] removed / added by discovery notify, write by the holder / a non-holder with the same numbers / the holder's other client feature / to a read-only function / to a function not added / " +
+			"with a 'function' element that names a WRITABLE function while the data element is that of a read-only or not-added function of the same feature type (by the holder and by non-holders) / with a 'function' element that merely repeats the data element's function / " +
+			"by a feature that is no longer announced / over the stale connection of a disconnected holder}; " +
+			"teardown operations are followed by writes of the former holder and of a remaining holder, a reconnect after a disconnect by writes of the former holder without a new binding; two thirds of the re-announcements of a holder are followed by its disconnect + reconnect, reconnect, or the removal and re-addition of the holder's entity. " +
+			"Writes are filter-less full writes of flag-less functions or partial writes to an existing id. " +
 			"non-trivial if at least one write was accepted, one refused, and one write was judged after a revocation (unbind, disconnect or entity removal of the holder); distinct = hash of operation kinds, features and outcomes.",
 		Assumptions: []string{
 			"message handling is synchronous (no write approval callbacks registered), so data, taps and core events are complete when the call into the stack has returned",
 			"the response to an authorised write is C01's subject: here only 'no error result, at most one success result' is asserted",
 			"a writer that is not an announced feature of a connected peer (removed entity, unknown feature, stale connection object after a disconnect) may or may not get a result; only 'no effect, no notify, no event' is asserted for it",
+			"'the written function' is the function of the cmd's data element (that is what a write changes); the optional 'function' element of the cmd does not widen the permission: a cmd that names a writable function there and carries the data of a function that is not writable is an unauthorised write",
+			"a re-announcement that leaves addresses, roles and types as they were (no reconnect, no removal; description texts may change) is neither a deletion of a binding nor a disappearance of the writer's device or entity: the holder stays authorised, everybody else stays unauthorised",
 		},
 		Parts: []rig.Part{
 			{Name: "hist", Cases: func(t rig.Tier) int { return map[rig.Tier]int{rig.Quick: 4800, rig.Thorough: 60000}[t] }, Run: c03Case, Procs: 2},
@@ -214,6 +221,17 @@ type c03Write struct {
 	class string
 	after string // the revocation this write follows, if any
 	readd string // entity ("[1]" or "[1,1]") the writer's peer announces again right before this write
+	// fnElem: the cmd's optional 'function' element. "" = absent (partial writes carry the matching one), "match" = the
+	// function of the data element, "mismatch" = a WRITABLE function of the feature while the data element is that of fn
+	fnElem string
+}
+
+// c03Forced is an operation the history has to perform next (after the queued writes): the teardown that follows a
+// re-announcement of a binding holder.
+type c03Forced struct {
+	roll int    // selects the operation like the random roll does
+	pi   int    // the peer
+	ent  string // entity removal: which entity
 }
 
 func c03Case(c *rig.Ctx) {
@@ -227,7 +245,10 @@ func c03Case(c *rig.Ctx) {
 		c.Violate(sig, "%s\n history:\n  %s", fmt.Sprintf(format, a...), strings.Join(hist, "\n  "))
 	}
 	accepted, refused, afterRevocation, teardowns := 0, 0, 0, 0
-	var queue []c03Write // writes forced by a preceding revocation
+	var queue []c03Write                      // writes forced by a preceding revocation
+	var forced []c03Forced                    // operations forced by a preceding re-announcement
+	var lostAtDisconnect [3]map[string]string // per peer: the bindings (server feature -> client) its last disconnect took away
+	reann := 0
 
 	takeAll := func() [][]model.DatagramType {
 		outs := make([][]model.DatagramType, len(w.Peers))
@@ -327,6 +348,22 @@ func c03Case(c *rig.Ctx) {
 					wantData = rig.CanonAny(exp)
 				}
 			}
+		}
+		switch {
+		case mode != "full":
+		case wr.fnElem == "match":
+			cmd.Function = util.Ptr(wr.fn)
+			mode = "full+function-element"
+			c.Count("function_element:equal-to-the-data-element's-function", 1)
+		case wr.fnElem == "mismatch":
+			// the data element decides which function is written; the function element names another, writable one
+			cmd.Function = util.Ptr(writableFn(s))
+			mode = "full+function-element=" + string(writableFn(s))
+			if r.Intn(4) == 0 {
+				cmd.Filter = []model.FilterType{*model.NewFilterTypePartial()}
+				mode += "+partial-filter"
+			}
+			c.Count("function_element:writable-function-named-while-data-element-is-of-another-function", 1)
 		}
 		log("#%d write(%s,%s,ack=%v) peer%d %s -> %s.%s %s class=%s%s authorised=%v (holder %v, announced=%v, write flag=%v, added=%v)", step, mode, rkToken(v), ack, wr.peer, wr.cli, wr.srv, wr.fn, rkKey(src),
 			wr.class, map[bool]string{true: " after " + wr.after, false: ""}[wr.after != ""], authorised, cw.binds[wr.srv], announced, writeFlag, added)
@@ -465,7 +502,7 @@ func c03Case(c *rig.Ctx) {
 			c.Count("writes_after:"+wr.after, 1)
 		}
 		c.Count("write_class:"+wr.class, 1)
-		shape = append(shape, fmt.Sprintf("w:%s:%s:%s:%s:%s:%v", wr.class, wr.cli, wr.srv, wr.fn, mode, authorised))
+		shape = append(shape, fmt.Sprintf("w:%s:%s:%s:%s:%s:%v", wr.class, wr.cli, wr.srv, wr.fn, strings.SplitN(mode, "=", 2)[0], authorised))
 	}
 
 	nOps := 15 + r.Intn(16)
@@ -477,14 +514,19 @@ func c03Case(c *rig.Ctx) {
 			continue
 		}
 		pi := r.Intn(3)
-		p := w.Peers[pi]
 		roll := r.Intn(100)
 		hs := holders()
-		if len(hs) == 0 && roll >= 20 && roll < 70 {
+		if len(hs) == 0 && roll >= 19 && roll < 72 {
 			roll = 0 // nothing is bound: bind first
 		}
+		forcedEnt := ""
+		if len(forced) > 0 {
+			roll, pi, forcedEnt = forced[0].roll, forced[0].pi, forced[0].ent
+			forced = forced[1:]
+		}
+		p := w.Peers[pi]
 		switch {
-		case roll < 20: // ---------------- bind
+		case roll < 19: // ---------------- bind
 			srv := c03Names[r.Intn(3)]
 			if !cw.conn[pi] {
 				continue
@@ -510,7 +552,7 @@ func c03Case(c *rig.Ctx) {
 			c.Count("op:bind", 1)
 			shape = append(shape, fmt.Sprintf("bind:%s:%s:%v", cli, srv, ok == 1))
 
-		case roll < 70: // ---------------- write
+		case roll < 66: // ---------------- write
 			srv := hs[r.Intn(len(hs))]
 			if r.Intn(6) == 0 {
 				srv = c03Names[r.Intn(3)]
@@ -519,17 +561,27 @@ func c03Case(c *rig.Ctx) {
 			h, bound := cw.binds[srv]
 			wr := c03Write{srv: srv, fn: writableFn(s)}
 			k := r.Intn(100)
+			// notWritable: a function of the feature's type that a remote write must never change: announced read-only (S0),
+			// or never added (S1, S2)
+			notWritable := func() (model.FunctionType, string) {
+				for _, fn := range s.all {
+					if wf, added := s.writable[fn]; added && !wf {
+						return fn, "read-only"
+					}
+				}
+				return notAddedFn(s), "not-added"
+			}
 			switch {
 			case !bound:
 				wr.class, wr.peer, wr.cli = "no-binding-on-feature", pi, cw.clientsFor(srv)[r.Intn(2)]
-			case k < 46:
+			case k < 40:
 				wr.class, wr.peer, wr.cli = "holder", h.peer, h.cli
-			case k < 58:
+			case k < 51:
 				wr.class, wr.peer, wr.cli = "same-numbers-from-other-peer", (h.peer+1+r.Intn(2))%3, h.cli
-			case k < 68:
+			case k < 60:
 				wr.class, wr.peer = "other-client-of-holder", h.peer
 				wr.cli = map[string]string{"x": "y", "y": "x", "z": "v", "v": "z"}[h.cli]
-			case k < 76:
+			case k < 67:
 				// the holder of another server feature writes here
 				wr.class, wr.peer, wr.cli = "holder-of-other-feature", pi, cw.clientsFor(srv)[r.Intn(2)]
 				for _, o := range hs {
@@ -537,7 +589,7 @@ func c03Case(c *rig.Ctx) {
 						wr.peer, wr.cli = oh.peer, oh.cli
 					}
 				}
-			case k < 84:
+			case k < 74:
 				wr.class, wr.peer, wr.cli = "read-only-function", h.peer, h.cli
 				for _, fn := range s.all {
 					if wf, added := s.writable[fn]; added && !wf {
@@ -547,7 +599,7 @@ func c03Case(c *rig.Ctx) {
 				if s.writable[wr.fn] {
 					wr.class, wr.fn = "function-not-added", notAddedFn(s)
 				}
-			case k < 94:
+			case k < 83:
 				wr.class, wr.peer, wr.cli = "function-not-added", h.peer, h.cli
 				wr.fn = notAddedFn(s) // a function of the feature's own type that was never added
 				if r.Intn(4) == 0 {
@@ -557,11 +609,18 @@ func c03Case(c *rig.Ctx) {
 						wr.fn = model.FunctionTypeDeviceClassificationUserData
 					}
 				}
+			case k < 94:
+				// the cmd names a writable function in its 'function' element and carries the data element of a function
+				// of the same feature type that is read-only or was never added: the written function is not writable
+				var how string
+				wr.peer, wr.cli = h.peer, h.cli
+				wr.fn, how = notWritable()
+				wr.class, wr.fnElem = "function-element-mismatch:data-element-of-"+how+"-function", "mismatch"
 			default:
 				wr.class, wr.peer, wr.cli = "unknown-writer-feature", h.peer, "unk"
 			}
 			// writes that fail BOTH conditions (no binding and no write permission) must still get exactly one error result
-			if bound && (strings.HasPrefix(wr.class, "read-only-function") || strings.HasPrefix(wr.class, "function-not-added") || wr.class == "function-of-foreign-type") && r.Intn(3) == 0 {
+			if bound && (strings.HasPrefix(wr.class, "read-only-function") || strings.HasPrefix(wr.class, "function-not-added") || wr.class == "function-of-foreign-type" || wr.fnElem == "mismatch") && r.Intn(3) == 0 {
 				wr.peer = (h.peer + 1 + r.Intn(2)) % 3
 				wr.class += "+non-holder"
 			}
@@ -576,13 +635,126 @@ func c03Case(c *rig.Ctx) {
 						wr.class = "no-binding-on-feature+read-only-function"
 					}
 				}
+				if r.Intn(3) == 0 {
+					wr.fnElem = "mismatch"
+					wr.class += "+function-element-mismatch"
+				}
+			}
+			// the function element that merely repeats the data element's function changes nothing
+			if wr.fnElem == "" && r.Intn(5) == 0 {
+				wr.fnElem = "match"
+				wr.class += "+function-element"
 			}
 			if wr.cli != "unk" && !cw.announced(wr.peer, wr.cli) {
 				wr.class += "+unannounced"
 			}
 			doWrite(step, wr)
 
-		case roll < 80: // ---------------- unbind
+		case roll < 72: // ---------------- re-announcement without reconnect
+			// A peer announces again what it has announced before, with unchanged content: the whole detailed discovery
+			// reply (what a second discovery read is answered with) or a partial notify lastStateChange=added for a known
+			// entity. The stack may rebuild its objects; who holds a binding does not change.
+			if len(hs) > 0 && r.Intn(3) > 0 { // prefer a peer that holds a binding
+				pi = cw.binds[hs[r.Intn(len(hs))]].peer
+				p = w.Peers[pi]
+			}
+			if !cw.conn[pi] {
+				continue
+			}
+			var present []string
+			for _, ek := range []string{"[1]", "[1,1]"} {
+				if cw.hasEnt[pi][ek] {
+					present = append(present, ek)
+				}
+			}
+			var mine []string // server features this peer holds
+			mineCli := map[string]string{}
+			for _, sn := range c03Names {
+				if h, ok := cw.binds[sn]; ok && h.peer == pi {
+					mine = append(mine, sn)
+					mineCli[sn] = h.cli
+				}
+			}
+			how := "reply"
+			ek := ""
+			if len(present) > 0 && r.Intn(2) == 0 {
+				how, ek = "added", present[r.Intn(len(present))]
+				if len(mine) > 0 && r.Intn(4) > 0 { // the entity of a client that holds a binding
+					ek = c03Ent(cw.pf[mineCli[mine[r.Intn(len(mine))]]])
+				}
+			}
+			takeAll()
+			w.Core.Take()
+			// in every second one the features carry a new description text: addresses, roles and types - what makes a
+			// feature "the same" - are unchanged
+			desc := ""
+			if r.Intn(2) == 0 {
+				reann++
+				desc = fmt.Sprintf("revision %d", reann)
+				c.Count("re-announcements_with_new_description_texts", 1)
+			}
+			withDesc := func(f rig.FS) rig.FS { f.Desc = desc; return f }
+			if how == "reply" {
+				feats := []rig.FS{withDesc(rig.NMFS)}
+				for _, f := range c03PeerFeats {
+					if cw.hasEnt[pi][c03Ent(f)] {
+						feats = append(feats, withDesc(f.FS()))
+					}
+				}
+				log("#%d peer%d sends its detailed discovery reply again (entities %v, same addresses, roles and types; descriptions %q); it holds %v", step, pi, present, desc, mine)
+				p.Announce(feats)
+			} else {
+				ent := []uint{1, 1}
+				if ek == "[1]" {
+					ent = []uint{1}
+				}
+				var feats []rig.FS
+				for _, f := range c03PeerFeats {
+					if c03Ent(f) == ek {
+						feats = append(feats, withDesc(f.FS()))
+					}
+				}
+				log("#%d peer%d announces the known entity %s as added again (same addresses, roles and types; descriptions %q); it holds %v", step, pi, ek, desc, mine)
+				p.NotifyDiscovery(true, p.Discovery(feats, map[string]model.NetworkManagementStateChangeType{fmt.Sprint(ent): model.NetworkManagementStateChangeTypeAdded}, nil))
+			}
+			for qi, o := range takeAll() {
+				if ns, _ := rkNotifies(o); len(ns) > 0 {
+					fail("re-announcement/unexpected-notify", "peer %d received %s", qi, rig.JS(ns[0].Raw))
+				}
+			}
+			w.Core.Take()
+			c.Count("op:re-announcement:"+how, 1)
+			if len(mine) > 0 {
+				c.Count("re-announcements_by_a_binding_holder", 1)
+			} else {
+				c.Count("re-announcements_by_a_bystander", 1)
+			}
+			shape = append(shape, fmt.Sprintf("reann:%s:%s:%d", how, ek, len(mine)))
+			// the holder still writes, and so does a holder on another connection
+			if len(mine) > 0 && r.Intn(2) == 0 {
+				sn := mine[r.Intn(len(mine))]
+				queue = append(queue, c03Write{peer: pi, cli: mineCli[sn], srv: sn, fn: writableFn(cw.srv[sn]), class: "holder", after: "re-announcement"})
+			}
+			for _, sn := range holders() {
+				if h := cw.binds[sn]; h.peer != pi && r.Intn(3) == 0 {
+					queue = append(queue, c03Write{peer: h.peer, cli: h.cli, srv: sn, fn: writableFn(cw.srv[sn]), class: "holder", after: "bystander-of-re-announcement"})
+					break
+				}
+			}
+			// ... and the teardown that follows must find what it has to remove (and nothing else)
+			if len(mine) > 0 && r.Intn(3) > 0 {
+				switch r.Intn(4) {
+				case 0:
+					forced = append(forced, c03Forced{roll: 81, pi: pi}, c03Forced{roll: 87, pi: pi}) // disconnect, then reconnect
+				case 1:
+					forced = append(forced, c03Forced{roll: 87, pi: pi}) // reconnect
+				default:
+					forced = append(forced, c03Forced{roll: 99, pi: pi, ent: c03Ent(cw.pf[mineCli[mine[r.Intn(len(mine))]]])})
+				}
+				c.Count("re-announcements_followed_by_a_teardown_of_the_holder", 1)
+			}
+
+		case roll < 81: // ---------------- unbind
 			if !cw.conn[pi] {
 				continue
 			}
@@ -636,6 +808,7 @@ func c03Case(c *rig.Ctx) {
 				}
 			}
 			teardowns++
+			lostAtDisconnect[pi] = lostCli
 			followUps(pi, lost, "disconnect", lostCli) // the former holder writes over the stale connection object
 			c.Count("op:disconnect", 1)
 			shape = append(shape, fmt.Sprintf("disconnect:%d", len(lost)))
@@ -650,14 +823,26 @@ func c03Case(c *rig.Ctx) {
 				}
 			}
 			log("#%d reconnect + re-announce peer%d (was connected: %v)", step, pi, cw.conn[pi])
+			what := "reconnect"
+			if !cw.conn[pi] && len(lostAtDisconnect[pi]) > 0 {
+				// the bindings went with the disconnect; coming back with the same SKI and addresses does not bring them back
+				what = "disconnect-and-reconnect"
+				for _, s := range c03Names {
+					if cl, ok := lostAtDisconnect[pi][s]; ok {
+						lost = append(lost, s)
+						lostCli[s] = cl
+					}
+				}
+			}
+			lostAtDisconnect[pi] = nil
 			takeAll()
 			cw.connect(pi, true)
 			takeAll()
 			w.Core.Take()
-			if len(lost) > 0 {
+			if len(lost) > 0 && what == "reconnect" {
 				teardowns++
 			}
-			followUps(pi, lost, "reconnect", lostCli) // announced again, but the binding is gone
+			followUps(pi, lost, what, lostCli) // announced again, but the binding is gone
 			c.Count("op:reconnect", 1)
 			shape = append(shape, fmt.Sprintf("reconnect:%d", len(lost)))
 
@@ -675,6 +860,9 @@ func c03Case(c *rig.Ctx) {
 				} else if !cw.hasEnt[pi]["[1,1]"] {
 					ent = []uint{1, 1}
 				}
+			}
+			if forcedEnt != "" && cw.hasEnt[pi][forcedEnt] { // the removal that follows a re-announcement
+				ent = map[string][]uint{"[1]": {1}, "[1,1]": {1, 1}}[forcedEnt]
 			}
 			ek := rkShort(ent, 0)
 			ek = ek[:strings.Index(ek, "/")]
@@ -694,7 +882,7 @@ func c03Case(c *rig.Ctx) {
 				cw.removeEntityRefs(pi, ek)
 				teardowns++
 				followUps(pi, lost, "entity-removed", lostCli)
-				if len(lost) > 0 && r.Intn(2) == 0 { // announced again, but the binding must be gone for good
+				if len(lost) > 0 && (r.Intn(2) == 0 || forcedEnt != "") { // announced again, but the binding must be gone for good
 					for _, s := range lost {
 						queue = append(queue, c03Write{peer: pi, cli: lostCli[s], srv: s, fn: writableFn(cw.srv[s]), class: "former-holder-re-added", after: "entity-removed-and-added", readd: ek})
 					}
